@@ -169,6 +169,20 @@ pub fn large_bases(c: &Collector, fills: Vec<Fill>) -> Vec<Base> {
         hidden_cursor: false,
     };
     let mut b = gen_bases(c, &spec);
+    // the same geometries with every other axis away from its default: a non-default
+    // rendition, reverse video, the graphics set active in G1, a hidden cursor and a
+    // non-empty save stack (size-gated code paths must not depend on defaults)
+    let spec2 = Spec {
+        modesets: vec![M_DECSCNM, M_DECSCNM | M_DECOM | M_IRM],
+        renditions: vec![vec![1, 31, 44, 7]],
+        stacks: vec![2],
+        charsets: vec![(true, "B", "0")],
+        hidden_cursor: true,
+        ..spec.clone()
+    };
+    let b2 = gen_bases(c, &spec2);
+    c.count("large_geometry_bases_nondefault_axes", b2.len() as u64);
+    b.extend(b2);
     if !c.thorough() {
         // quick tier: every 5th of them (the thorough tier takes all)
         b = b.into_iter().step_by(5).collect();
@@ -818,7 +832,7 @@ pub fn c06(c: &Collector, g: &mut Guard) {
         cursors: CursorSel::All,
         regions: RegionSel::All,
         modesets: vec![],
-        renditions: vec![vec![]],
+        renditions: default_renditions(),
         stacks: vec![0],
         charsets: default_charsets(),
         hidden_cursor: false,
@@ -849,7 +863,7 @@ pub fn c06(c: &Collector, g: &mut Guard) {
             cursors: CursorSel::Home,
             regions: RegionSel::NoRegion,
             modesets: vec![0],
-            renditions: vec![vec![]],
+            renditions: vec![vec![], vec![1, 31, 44, 7]],
             stacks: vec![0],
             charsets: default_charsets(),
             hidden_cursor: false,
